@@ -1,7 +1,7 @@
 #!/bin/bash
 # check.sh <property> <quick|thorough>            run the check (rebuilds json-c from /repo's working tree first)
 # check.sh <property> --replay <file> [-v]        replay a reported violation
-. /verif/scripts/common.sh
+. "$(dirname "${BASH_SOURCE[0]}")/common.sh"
 id=${1:?property id}; shift
 export LOCPATH=$B/locale
 [ -f "$B/locale/vf_COMMA/LC_NUMERIC" ] || bash "$V/locale/build_locale.sh" 1>&2 || true
@@ -39,7 +39,9 @@ C18)
 	"$B/jsim-thrassert" C18 "$@" $extra; rc2=$?
 	python3 - <<'PY'
 import json, os
-a, b = "/verif/evidence/C18.json", "/verif/evidence/C18A.json"
+import os as _os
+V = _os.environ.get("VERIF_DIR", "/verif")
+a, b = V + "/evidence/C18.json", V + "/evidence/C18A.json"
 try:
     if os.path.exists(b):
         ea, eb = json.load(open(a)), json.load(open(b))
@@ -65,7 +67,9 @@ C14)
 	"$B/jsim-thr" C14T "$@"; rc2=$?
 	python3 - <<'PY'
 import json, os
-a, b = "/verif/evidence/C14.json", "/verif/evidence/C14T.json"
+import os as _os
+V = _os.environ.get("VERIF_DIR", "/verif")
+a, b = V + "/evidence/C14.json", V + "/evidence/C14T.json"
 try:
     ea, eb = json.load(open(a)), json.load(open(b))
     cb = eb["coverage"]
